@@ -24,6 +24,7 @@ func init() {
 		jobs := []Job{
 			{Pkg: airPkg, Fn: "VF_Airgapped_Commits", Opts: defaultOpts(), Tag: "two machines, same seed", Case: "seeds", Params: map[string]string{"tag": "c12a"}},
 			{Pkg: airPkg, Fn: "VF_Airgapped_Replay", Opts: defaultOpts(), Tag: "stop/restart/replay around the commitments step", Case: "replay", Params: map[string]string{"tag": "c12b"}},
+			{Pkg: airPkg, Fn: "VF_Airgapped_Replay", Opts: defaultOpts(), Tag: "stop/restart/replay around the commitments step of a second round", Case: "replay after an earlier round", Params: map[string]string{"tag": "c12c", "prior": "1"}},
 		}
 		res := cr.Pool.Run(jobs)
 		cr.absorb(jobs, res)
@@ -31,10 +32,11 @@ func init() {
 			for stop := 0; stop < 3; stop++ {
 				cr.validateNatively(jobs[1], nil, map[string]int{"stop": stop})
 			}
+			cr.validateNatively(jobs[2], nil, map[string]int{"stop": 2})
 		}
 		cr.samples = append(cr.samples, map[string]interface{}{"stops": []string{"before the step", "step computed but not logged", "step logged"}})
 		cr.explanation = "dc4bc's share of C12 for the first DKG step: NewMachine/SetBaseSeed/ProcessOperation/GetOperationResult/storeOperation/getOperationsLog/ReplayOperationsLog and the commitments handler executed from SSA over the LevelDB/file stubs and kyber contracts. (1) Two machines built from the same mnemonic publish the same long-term key and the same commitments for the same operation. (2) A machine stopped before the step, after computing it without logging, or after logging it, reopened on the same database and rebuilt by replay (or by feeding the operation again when nothing was logged) has the same DKG instance (participant id, n, t, dealer commitments) as the uninterrupted one; replay does not log again. Each stop point is also run natively with real kyber and real LevelDB on every run."
-		cr.bounds["scenario"] = "n=2, t=2; commitments step only; one stop per run"
+		cr.bounds["scenario"] = "n=2, t=2; commitments step only; one stop per run; the round is the first one the process handles, or the second one (an earlier round's first step was handled by the same process)"
 		cr.bounds["outside"] = "the deals/responses/master-key steps (need the full Pedersen DKG state machine as contracts), crashes between the log write and the result-file write inside ProcessOperation (no injection point without hooks), bit-identity of kyber's outputs (determinism contract)"
 		cr.assume = append(cr.assume, "kyber contracts: seeded suites and frand are functions of their seed; LevelDB = atomic map that survives reopen; bip39/pbkdf2 evaluated natively")
 		cr.trusted = append(cr.trusted, "gosx SSA->SMT executor", "z3 4.8.12", "kyber contracts (validated natively per run)")
